@@ -8,6 +8,13 @@ HERE = os.path.dirname(os.path.dirname(os.path.abspath(__file__)))
 
 # id -> (technique, level text, level note, design ref)
 CHECKS = {
+    "C03": (
+        "exhaustive enumeration of coordinate structures (all flat lists up to length 5 over a 7-letter alphabet; nested shapes with deviation-bounded leaf substitutions, arity changes, wrap/unwrap, reversal) x 9 type tags x 4 entry points on the real validators against a recursive validity predicate and normal form",
+        "3.49 M (quick) / 73.8 M (thorough) (structure, type tag) cases: all scalars and flat lists of length 0..5 over {0, 1, 2, 3, -1, MAX, MAX+1}, one level of wrong nesting, 50 (210) nested base shapes with every structure within the deviation bound; "
+        "each through the constructor, geometry_validate dict / attributes / JSON modes: accepted iff the model says valid, the four entry points agree, rejection is a ValueError subclass, accepted geometries are in normal form, are instances of the class named by the tag, and re-validating the JSON dump gives an equal geometry; type-tag cases (missing, unknown, unhashable, mismatching).",
+        "NaN/inf, numeric strings, booleans and tuples are outside the alphabet (Pydantic lax-mode conventions). Deviation bound shrinks with shape size (literal D<=2 on every shape would be ~1e9 cases).",
+        "DESIGN.md 4/C03",
+    ),
     "C04": (
         "exhaustive enumeration of match sequences / membership multisets / boundary values through four construction paths (constructor, model_validate, model_validate_json, edited AOEF document + io.load) against set/multiset predicates",
         "ClipEvaluation: every subset of annotations x predictions present x same/different clip x every sequence of <= 3 (quick) / <= 4 (thorough) matches over the 15 (source, target) kinds incl. foreign and duplicated ones; "
@@ -155,7 +162,7 @@ CHECKS = {
     ),
 }
 
-PENDING_REASON = "check not built yet in this round (design in DESIGN.md section 4); not claimed until its machinery is committed"
+PENDING_REASON = "check not built yet (design in DESIGN.md section 4); not claimed until its machinery is committed"
 
 
 def main():
